@@ -217,6 +217,15 @@ def main():
             # same tree object: twice the same generator, and cpp -> dbc -> can_c -> cpp
             for path in job["schemas"]:
                 res = parse(path)
+                if res.is_err():
+                    # a schema the front end rejects is rejected here as anywhere: same (error) result for every entry
+                    e = {"<error>": repr(res.err())[:200]}
+                    per = {"codec-uses": {"<ok>": "1"}, "cpp/after-others": e}
+                    for g in GENS:
+                        for suffix in ("/first", "/second", "/after-codec", "/into-written-dir"):
+                            per[g + suffix] = e
+                    out["results"][path] = per
+                    continue
                 fcp = res.unwrap()
                 per = {}
                 def safe_map(g):
